@@ -533,6 +533,69 @@ func syncFacts(repo string, w *strings.Builder) error {
 		}
 	}
 	fmt.Fprintf(w, "/-- functions of the stores that iterate `rows.Next()` themselves and never ask `rows.Err()` -/\ndef rowLoopsWithoutErrCheck : List String := %s\n", leanStrList(noErrCheck))
+
+	// an error assigned to one variable and a DIFFERENT variable tested right after it: `if a := f(); b != nil`, or
+	// `xErr := f()` immediately followed by `if err != nil` (the failure of f is then never seen)
+	var mism []string
+	isErrName := func(n string) bool { return n == "err" || strings.HasSuffix(n, "Err") || strings.HasPrefix(n, "err") }
+	testedNotNil := func(e ast.Expr) string {
+		be, ok := e.(*ast.BinaryExpr)
+		if !ok || be.Op != token.NEQ {
+			return ""
+		}
+		if id, ok := be.Y.(*ast.Ident); !ok || id.Name != "nil" {
+			return ""
+		}
+		if id, ok := be.X.(*ast.Ident); ok {
+			return id.Name
+		}
+		return ""
+	}
+	lastErrDefined := func(as *ast.AssignStmt) string {
+		if len(as.Rhs) != 1 {
+			return ""
+		}
+		if _, ok := as.Rhs[0].(*ast.CallExpr); !ok {
+			return ""
+		}
+		if id, ok := as.Lhs[len(as.Lhs)-1].(*ast.Ident); ok && isErrName(id.Name) {
+			return id.Name
+		}
+		return ""
+	}
+	for _, file := range []string{"bridgesync/processor.go", "l1infotreesync/processor.go", "l1infotreesync/processor_verifybatches.go",
+		"l1infotreesync/processor_initl1inforootmap.go", "lastgersync/processor.go", "tree/tree.go", "tree/appendonlytree.go", "tree/updatabletree.go",
+		"aggsender/db/aggsender_db_storage.go", "db/tx.go"} {
+		_, af, err := parseOne(repo, file)
+		if err != nil {
+			return err
+		}
+		for _, d := range af.Decls {
+			fd, ok := d.(*ast.FuncDecl)
+			if !ok || fd.Body == nil {
+				continue
+			}
+			stmtLists(fd.Body, func(list []ast.Stmt) {
+				for i, st := range list {
+					if is, ok := st.(*ast.IfStmt); ok && is.Init != nil {
+						if as, ok := is.Init.(*ast.AssignStmt); ok {
+							if def, tested := lastErrDefined(as), testedNotNil(is.Cond); def != "" && tested != "" && isErrName(tested) && def != tested {
+								mism = append(mism, fmt.Sprintf("%s:%s assigns %s, tests %s", file, fd.Name.Name, def, tested))
+							}
+						}
+					}
+					if as, ok := st.(*ast.AssignStmt); ok && i+1 < len(list) {
+						if is, ok := list[i+1].(*ast.IfStmt); ok && is.Init == nil {
+							if def, tested := lastErrDefined(as), testedNotNil(is.Cond); def != "" && tested != "" && isErrName(tested) && def != tested {
+								mism = append(mism, fmt.Sprintf("%s:%s assigns %s, tests %s", file, fd.Name.Name, def, tested))
+							}
+						}
+					}
+				}
+			})
+		}
+	}
+	fmt.Fprintf(w, "/-- the stores: an error assigned to one variable while another one is tested right after it -/\ndef errVarMismatch : List String := %s\n", leanStrList(mism))
 	var rangeQ []string
 	{
 		fset, af, err := parseOne(repo, "bridgesync/processor.go")
